@@ -204,10 +204,16 @@ class C12(PropertyCheck):
         "threshold_bifurcations and leaves_of_a_subtree are not modelled in Lean: oracle only "
         "(superlevel-set components) / not covered",
     ]
-    level_note = ("watershed: one maximum per basin proved for the model's steepest-ascent map; agreement of "
-                  "the cc-based labelling, local_maxima depth values and threshold_bifurcations with the "
-                  "direct definitions is by correspondence/oracle; depth strictness is proved for any "
-                  "fixed point of the sweep (convergence within V sweeps is checked per case)")
+    level_note = ("proved for all inputs of the model: both dilation paths = closed-neighbourhood maximum and agree "
+                  "(incl. the compact_neighb slices), erosion = closed-neighbourhood minimum, opening/closing "
+                  "order and idempotence for every nbiter on symmetric graphs, check <=> every vertex reaches a "
+                  "root within V steps, no cycles, children/leaf/root consistency, depth strict at any fixed point "
+                  "of the sweep, reordering conjugates the parent map, watershed labels exactly the vertices "
+                  "above threshold and basin roots are local maxima. Partial / by correspondence and oracle "
+                  "only: uniqueness of the maximum per basin and the cc numbering, local_maxima depth values, "
+                  "threshold_bifurcations, diffusion as a dense matrix power (one sparse application per "
+                  "iteration is proved), descendants, subforest renumbering, upward propagation, convergence "
+                  "of depth_from_leaves within V sweeps")
     finding_keys = {}
 
     # ------------------------------------------------------------------
